@@ -123,6 +123,7 @@ class TreeOracle:
         self.reset(0)
 
     def reset(self, mode):
+        self.armed = False
         self.ideal = Ideal(mode)
         self.walk = None            # progress of a step-wise walk: list of remaining items
         self.unfinished = False     # a walk was left unfinished since the last reset of the iterator
@@ -137,6 +138,38 @@ class TreeOracle:
         st = state_of(line)
         kind = w[0]
         err = None
+        armed, self.armed = self.armed, False
+        if kind in ("fault", "faultfrom"):
+            self.armed = True
+            return None
+        if kind in ("quiet", "dump", "size", "cursor0", "walk", "clear"):
+            self.armed = armed          # no library call window: the armed failure stays pending
+        if kind == "end":
+            m = re.match(r"end live=(-?\d+) bad=(\d+)", line)
+            self.reset(0)
+            if not m:
+                return "malformed end line"
+            if "ledger" in a and int(m.group(1)) != 0:
+                return "%s blocks allocated by the container are still live after it was released" % m.group(1)
+            if "copies" in a and int(m.group(2)) != 0:
+                return "%s returned copies changed after later mutations / release of the container" % m.group(2)
+            return None
+        if armed and kind in ("put", "get", "min", "max", "next", "near", "new"):
+            # an allocation may have failed inside this call (C15): the call must either complete
+            # correctly or report failure and leave the contents alone
+            failed = (kind == "put" and f[0] == "false") or (kind == "get" and f[0] == "null") or \
+                     (kind in ("min", "max", "near") and f[0] == "ENOMEM") or (kind == "next" and f[0] == "enomem") or \
+                     (kind == "new" and f[0] == "null")
+            if kind == "new":
+                self.reset(int(w[1]))
+                return None
+            if failed:
+                if kind == "get":
+                    return None
+                err = self.post(op, st, a)
+                if kind == "next":
+                    pass                    # the node stays unvisited: the walk bookkeeping is unchanged
+                return err
         if kind == "new":
             self.reset(int(w[1]))
         elif kind == "put":
@@ -217,9 +250,20 @@ class TreeOracle:
                     if remaining and ((mode == "fresh" and "walk" in a) or (mode == "near" and "nearest" in a and not self.unfinished)):
                         err = "walk ended although %d keys were not visited: %r" % (len(remaining), remaining[:4])
                     self.walk = None; self.unfinished = False
+        if err is None:
+            err = self.post(op, st, a)
+        return err
+
+    def post(self, op, st, a):
+        """checks on the state reported after an operation"""
         I = self.ideal
-        if err is None and st is not None:
-            if "map" in a and st["num"] != len(I.d):
+        err = None
+        if st is not None:
+            if "ledger" in a:
+                want = 1 + sum(3 if v else 2 for _, v in I.d.values())
+                if st["live"] != want:
+                    return "after `%s` the container holds %d live blocks, its contents account for %d" % (op, st["live"], want)
+            if ("map" in a or "atomic" in a) and st["num"] != len(I.d):
                 err = "key count %d, ideal map has %d" % (st["num"], len(I.d))
             if "shape" in a:
                 if st["chk"] != 0:
@@ -233,6 +277,13 @@ class TreeOracle:
                         ks = [k for k, _ in inorder(t, [])]
                         if ks != [k for k, _ in I.sorted_items()]:
                             err = "after `%s`: keys in search order %r differ from the ideal map's %r" % (op, ks[:6], [k for k, _ in I.sorted_items()][:6])
+            if err is None and "atomic" in a and st["shape"] is not None:
+                t = parse_shape(st["shape"])
+                items = inorder(t, [])
+                if items != [tuple(x) for x in I.sorted_items()]:
+                    err = "after `%s` the table holds %r, expected %r" % (op, items[:6], I.sorted_items()[:6])
+                elif st["chk"] != 0 or llrb_violation(t):
+                    err = "after `%s` the tree is not a valid LLRB tree (check=%d)" % (op, st["chk"])
         return err
 
 
